@@ -951,6 +951,12 @@ fn build_net(run: u64, seed: u64, cfg: &Value, log: &Log) -> Net {
 		chans.push(Chan { a: *a, b: *b, scid, cid });
 		connected.insert((*a, *b), true);
 	}
+	// opening a channel mines blocks on its two ends only: bring every node to the same height
+	let maxh = nodes.iter().map(|nd| nd.best_block_info().1).max().unwrap_or(0);
+	for nd in nodes.iter() {
+		let h = nd.best_block_info().1;
+		if h < maxh { connect_blocks(nd, maxh - h); }
+	}
 	for i in 0..n {
 		nodes[i].tx_broadcaster.txn_broadcasted.lock().unwrap().clear();
 		nodes[i].tx_broadcaster.txn_types.lock().unwrap().clear();
